@@ -920,7 +920,11 @@ func conj(a ...MalType) (MalType, error) {
 		}
 		return List{Val: append(new_slc, seq.Val...)}, nil
 	case Vector:
-		new_slc := append(seq.Val, a[1:]...)
+		// never append in place: the argument's backing array may have spare capacity that is
+		// shared with other values (vectors are immutable)
+		new_slc := make([]MalType, 0, len(seq.Val)+len(a)-1)
+		new_slc = append(new_slc, seq.Val...)
+		new_slc = append(new_slc, a[1:]...)
 		return Vector{Val: new_slc}, nil
 	case HashMap:
 		if len(a)%2 != 1 {
